@@ -537,6 +537,7 @@ func runUFlight(w *bufio.Writer, seed uint64, n int, _ []string) {
 		if vpan != nil {
 			dist["validate-panic"]++
 			monfail(w, "uflight/validate/panic", fmt.Sprintf("validateInitialFlight panicked instead of rejecting the plan: %v", vpan), det)
+			fmt.Fprintf(w, "CASE 0 %s\n", u.App("ValCase", hexList(payloads), intList(budgets), u.Z(int64(clen)), u.Z(-1)))
 			continue
 		}
 		if verr == nil {
